@@ -32,7 +32,7 @@ func runC05(c *Ctx) {
 
 	fRun := p.Method(pkgRuntime, "Runtime", "Run")
 	if c.NeedFunc("R05.1", fRun, rtT+".Run") {
-		start := ClosureWith(fRun, p.CallTo(rtT+".setupWatches"))
+		start := p.BodyWith(fRun, p.CallTo(rtT+".setupWatches"))
 		if c.NeedFunc("R05.1", start, "Run start closure") {
 			spawn := p.CallTo("(*golang.org/x/sync/errgroup.Group).Go", pkgRuntime+".goFunc")
 			c.MustCut("R05.1", "goroutines ⊣ {setupWatches() == nil}", start, spawn, CutSpec{Edges: FactEdge("nil(call:" + rtT + ".setupWatches(*")}, 2)
